@@ -6,7 +6,10 @@
    no-ops, so the theorems quantify over every interleaving of producer, feeder
    flushes, worker receives, receive timeouts (only on an empty pipe) and the
    shutdown signal, for every item count n, worker count par >= 1, queue
-   capacity and pipe capacity.  Statements only; proofs in Proofs/VisitParP.v. *)
+   capacity and pipe capacity.  The [_contended] theorems further below widen the
+   schedules beyond the property's own quantifier: get(timeout) may also raise
+   Empty on a NON-empty pipe while another worker is inside get() (it may be
+   holding the queue's reader lock).  Statements only; proofs in Proofs/VisitParP.v. *)
 From Coq Require Import List Arith Bool.
 From Toasty Require Import Model.VisitPar Proofs.VisitParP.
 From Toasty Require Import Model.Quadtree Model.Reducer Proofs.ReducerP Proofs.CountsP.
@@ -91,4 +94,61 @@ Example visit_nonvacuous :
      AIsSet 1; ARecv 1; AIsSet 0; ARecv 0; AClose; AFeederExit; AJoinThread; ASet;
      AIsSet 0; AIsSet 1; ATimeout 0; ATimeout 1; AJoin 0; AJoin 1] in
   pc s = PReturned /\ rev (started s) = [(0, 1); (1, 1); (2, 0)].
+Proof. vm_compute. auto. Qed.
+
+(* ---- beyond the property's quantifier: Empty raised under reader-lock contention ----
+   [init_c … true]: action [ACTimeout w] (get() of worker w raises Empty although the
+   pipe holds items) is enabled whenever another worker is inside get().  The stage is
+   still exactly-once and complete at return, cannot deadlock, and makes bounded
+   progress; what weakens is only the per-worker clause of [visit_safety]: a worker
+   MAY now leave its loop with items outstanding, but never the last one. *)
+Theorem visit_terminal_contended :
+  forall n par cap pcap (l : list act), 1 <= par ->
+  let s := run (fun _ => false) (init_c n par cap pcap true true) l in
+  pc s = PReturned ->
+  nrecv s = n /\
+  map fst (started s) = rev (seq 0 n) /\
+  finished s = rev (seq 0 n) /\
+  (forall w, w < par -> nth_error (ws s) w = Some (WExited 0)).
+Proof. intros n par cap pcap l. exact (VisitParP.visit_terminal_c n par cap pcap true l). Qed.
+Print Assumptions visit_terminal_contended.
+
+Theorem visit_safety_contended :
+  forall bad n par cap pcap (l : list act), 1 <= par ->
+  let s := run bad (init_c n par cap pcap true true) l in
+  map fst (started s) = rev (seq 0 (nrecv s)) /\ nrecv s <= n /\
+  (nrecv s < n -> exists h x, nth_error (ws s) h = Some x /\ not_exit0 x = true) /\
+  (forall w, nth_error (ws s) w = Some (WExited 1) -> exists i, i < nrecv s /\ bad i = true).
+Proof. intros bad n par cap pcap l. exact (VisitParP.visit_safety_c bad n par cap pcap true l). Qed.
+Print Assumptions visit_safety_contended.
+
+Theorem visit_no_deadlock_contended :
+  forall n par cap pcap (l : list act), 1 <= par -> 1 <= cap -> 1 <= pcap ->
+  let s := run (fun _ => false) (init_c n par cap pcap true true) l in
+  pc s <> PReturned -> can_progress (fun _ => false) s.
+Proof. intros n par cap pcap l. exact (VisitParP.visit_no_deadlock_c n par cap pcap true l). Qed.
+Print Assumptions visit_no_deadlock_contended.
+
+Theorem visit_measure_contended :
+  forall n par cap pcap (l : list act) a, 1 <= par ->
+  let s := run (fun _ => false) (init_c n par cap pcap true true) l in
+  enabled_b s a = true -> polling s a = false ->
+  measure par (step (fun _ => false) s a) < measure par s.
+Proof. intros n par cap pcap l a. exact (VisitParP.visit_measure_c n par cap pcap true l a). Qed.
+Print Assumptions visit_measure_contended.
+
+(* non-vacuity: worker 0 leaves its loop on a contended Empty while item 1 is still in
+   the pipe (so the per-worker clause of visit_safety really fails here); worker 1
+   takes the item and the stage returns complete *)
+Example contended_exit_reachable :
+  let s1 := run (fun _ => false) (init_c 2 2 4 4 true true) (firstn 14 contended_schedule) in
+  let s2 := run (fun _ => false) (init_c 2 2 4 4 true true) contended_schedule in
+  (nth_error (ws s1) 0 = Some (WExited 0) /\ nrecv s1 = 1) /\
+  (pc s2 = PReturned /\ rev (started s2) = [(0, 0); (1, 1)]).
+Proof. exact VisitParP.contended_exit_reachable. Qed.
+
+(* the old protocol loses items under contention as well (a revert is recognised) *)
+Example old_worker_loses_item_contended :
+  let s := run (fun _ => false) (init_c 1 1 2 1 false true) f9_schedule in
+  pc s = PReturned /\ nrecv s = 0.
 Proof. vm_compute. auto. Qed.
